@@ -63,10 +63,11 @@ class CallGraph:
         return {p for p, out in self.edges.items() if path in out}
 
     def exclusive(self, root):
-        """root and the local functions (and closures) that are only ever referred to from root's own exclusive call tree:
-        the private helpers of root, however the body of root is split up."""
-        reach = {p for p in self.reachable([root]) if p in self.local}
-        excl = {root}
+        """root (or a set of roots) and the local functions (and closures) that are only ever referred to from the roots'
+        own exclusive call tree: their private helpers, however the bodies are split up."""
+        roots = [root] if isinstance(root, str) else list(root)
+        reach = {p for p in self.reachable(roots) if p in self.local}
+        excl = set(roots)
         changed = True
         while changed:
             changed = False
